@@ -63,11 +63,13 @@ GrammarFails(stage, steps, cb, p) ==
 
 LegalSignature(c) == "illegal"
 OrientSignature(c0, c) == "orientation"
-\* D6: the true wirelength increased although no cell with pins changed... see KNOWN_FINDINGS
-WlSignature(ref, c) ==
-    IF \E i \in Movable(c) : c.cells[i].o # ref.cells[i].o /\ c.cells[i].p # "ANY" /\
-                              \E k \in 1..Len(c.nets) : \E j \in 1..Len(c.nets[k].pins) : c.nets[k].pins[j].c = i
-    THEN "polarised-cell-reoriented-frozen-offsets"
+\* D6: detailed placement optimises a wirelength whose pin offsets are frozen at the orientations of the
+\* legalized placement (ref0).  Signature: the true wirelength increased from prev to c although the
+\* frozen-offset wirelength did not.
+WithOrient(c, r) == [c EXCEPT !.cells = [i \in 1..Len(c.cells) |-> [c.cells[i] EXCEPT !.o = r.cells[i].o]]]
+WlSignature(ref0, prev, c) ==
+    IF Hpwl(WithOrient(c, ref0)) <= Hpwl(WithOrient(prev, ref0)) /\ WithOrient(c, ref0) # c
+    THEN "frozen-pin-offsets-after-reorientation"
     ELSE "wirelength"
 C11Signature(p) == IF p.ow < 0 \/ p.ow > 1000 THEN "ordering-width-outside-0-1" ELSE "moved"
 ThrowSignature(entry, what) == "detailed-throw"
